@@ -131,6 +131,8 @@ class Proc:
         self.sigint_flag = {}        # sig -> bool (True = interrupting, the signal.signal default)
         self.wakeup_fd = -1
         self.stopped = False
+        self.coop = False            # the process runs green threads (co-operative scheduling among its tasks)
+        self.coop_running = None     # the green thread that was pre-empted mid-run (no sibling may run before it blocks)
         self.tasks = []
         self.exiting = None
         self.sig_received = []
@@ -335,6 +337,9 @@ class Sim:
     def _ready(self):
         out = []
         for t in self.tasks:
+            cr = t.proc.coop_running
+            if cr is not None and cr is not t and cr.state == "runnable" and not t.killed:
+                continue
             if t.state == "runnable":
                 if t.proc.stopped and not t.killed:
                     continue
@@ -460,12 +465,18 @@ class Sim:
         if t.killed:
             raise SimKilled()
 
-    def yield_now(self):
+    def yield_now(self, preempt=False):
         t = current_task()
         if t is None:
             return
         t.state = "runnable"
+        if preempt and t.proc.coop:
+            # green threads of one process are scheduled co-operatively: a pre-emption (of the OS thread they all share) lets OTHER
+            # processes run, but no sibling green thread may run before this one has reached a blocking call of its own
+            t.proc.coop_running = t
         self._switch(t)
+        if t.proc.coop_running is t:
+            t.proc.coop_running = None
 
     def block(self, pred, timeout=None, interruptible=True, restartable=False):
         """Block the current task until pred() or timeout.  Returns 'ready' | 'timeout' | 'signal'."""
@@ -493,6 +504,9 @@ class Sim:
             woke = t.woke
             t.pred = None
             t.deadline = None
+            if t.throw is not None:
+                exc, t.throw = t.throw, None
+                raise exc                    # (whatever else woke it: the exception arrives at the suspension point)
             if woke == "signal":
                 if self.deliver_signals(t):
                     # handlers ran and returned: PEP 475 - resume the call with the remaining timeout
@@ -537,7 +551,7 @@ class Sim:
                 fn()
         if self.tickn in self.preempt_at:
             self.fault("forced_preemption")
-            self.yield_now()
+            self.yield_now(preempt=True)
         elif self.fine_interleave and (self.fine_filter is None or self.fine_filter(t)) \
                 and self.choices.coin(1, self.fine_interleave, "fine"):
             # fine-grained mode (a fraction of the runs): any simulated system call may be followed by a switch.
@@ -546,7 +560,7 @@ class Sim:
             self.fault("fine_interleave_switch")
             if self.fine_long:
                 t.low = True
-            self.yield_now()
+            self.yield_now(preempt=True)
         if t.is_main and t.proc.pending:
             self.deliver_signals(t)
 
